@@ -44,6 +44,10 @@ package main
 
 //@ func getValueFromContext
 //@   requires ctx != nil
+//@   # ASSUMED about context.Context (trusted boundary, fncall): the value stored under the string key "prefetch" is a bool.
+//@   # The only writer of that key is WithSubrapghPrefetch(ctx, yesNo bool); a context is opaque to vcgo.
+//@   fncall ctx.Value ensures typeis(arg0, string) && arg0.(string) == "prefetch" ==> result == nil || typeis(result, bool)
+//@   ensures typeis(key, string) && key.(string) == "prefetch" ==> result == nil || typeis(result, bool)
 
 //@ func WithSubrapghPrefetch
 //@   ensures result != nil
@@ -110,42 +114,51 @@ package main
 // (validIndex(result) cannot be stated here: spec functions / unexported fields of package blocktimeindex are not visible from main)
 
 //@ func (*Epoch) GetBlock
+//@   requires ctx != nil && validEpoch(ser)
 //@   ensures result2 == nil ==> result0 != nil
 //@   # C03 (K2): the block answered is the block of the requested slot
 //@   ensures result2 == nil ==> uint64(result0.Slot) == slot
 //@   noframe
 
 //@ func (*Epoch) GetTransaction
+//@   requires ctx != nil && validEpoch(ser)
 //@   ensures result2 == nil ==> result0 != nil
 //@   # C03 (K3): the transaction answered carries the requested signature as its first signature
 //@   ensures result2 == nil ==> (*result0).Signature() == sig
 //@   noframe
 
 //@ func (*Epoch) GetEntryByCid
+//@   requires validEpoch(ser)
 //@   ensures result1 == nil ==> result0 != nil
 //@   noframe
 
 //@ func (*Epoch) GetTransactionByCid
+//@   requires validEpoch(ser)
 //@   ensures result1 == nil ==> result0 != nil
 //@   noframe
 
 //@ func (*Epoch) GetDataFrameByCid
+//@   requires validEpoch(ser)
 //@   ensures result1 == nil ==> result0 != nil
 //@   noframe
 
 //@ func (*Epoch) GetRewardsByCid
+//@   requires validEpoch(ser)
 //@   ensures result1 == nil ==> result0 != nil
 //@   noframe
 
 //@ func (*Epoch) GetFirstAvailableBlock
+//@   requires validEpoch(s)
 //@   ensures result1 == nil ==> result0 != nil
 //@   noframe
 
 //@ func (*Epoch) GetMostRecentAvailableBlock
+//@   requires validEpoch(s)
 //@   ensures result1 == nil ==> result0 != nil
 //@   noframe
 
 //@ func (*Epoch) GetNodeByCid
+//@   requires validEpoch(s)
 //@   # C03 (K1) call-site condition: a section fetched from the CAR on behalf of a CID request is always read WITH the
 //@   # wanted CID (the pointer handed down is non-nil and points to the requested CID), so parseNodeFromSection's
 //@   # comparison `gotCid == *wantedCid` guards every answer that comes from the index + CAR path.
@@ -159,19 +172,27 @@ package main
 //@   noframe
 
 //@ func (*Epoch) ReadAtFromCar
+//@   # the only callers (the CAR prefetchers of getBlock, JSON-RPC and gRPC) cap the length at 10 MiB
+//@   requires length <= 10485760
 //@   noframe
 
 //@ func (*Epoch) FindCidFromSlot
+//@   requires validEpoch(ser)
 //@   noframe
 
 //@ func (*Epoch) FindCidFromSignature
+//@   requires validEpoch(ser)
 //@   noframe
 
 //@ func (*Epoch) FindOffsetAndSizeFromCid
+//@   # only for an epoch served from a CAR: in lassie mode there is no cid-to-offset index (GetNodeByCid and the prefetchers
+//@   # of getBlock test lassieFetcher first)
+//@   requires validEpoch(ser) && ser.lassieFetcher == nil
 //@   ensures e == nil ==> os != nil
 //@   noframe
 
 //@ func (*Epoch) prefetchSubgraph
+//@   requires validEpoch(s)
 //@   noframe
 
 // ---- JSON-RPC handlers ----
@@ -235,6 +256,9 @@ package main
 //@   noframe
 
 //@ func (*MultiEpoch) findEpochNumberFromSignature
+//@   # C02/C03: inside the per-epoch search job the sig-to-cid index (24-bit hashes: false positives for absent signatures)
+//@   # is consulted only for an epoch whose sig-exists index has the signature
+//@   fncall epoch.FindCidFromSignature requires ok && has
 //@   requires ctx != nil && held(multi.mu) == 0 && validEpochSet(multi) && multi.options != nil
 //@   ensures held(multi.mu) == 0
 //@   noframe
@@ -242,7 +266,8 @@ package main
 //@ spec func inEpochSet(ser *MultiEpoch, e *Epoch) bool = exists q uint64 :: has(ser.epochs, q) && ser.epochs[q] == e
 //@ spec func readerOfSet(ser *MultiEpoch, r *gsfa.GsfaReader, n uint64) bool = exists q uint64 :: has(ser.epochs, q) && ser.epochs[q] != nil && ser.epochs[q].gsfaReader == r && ser.epochs[q].epoch == n
 //@ func (*MultiEpoch) getGsfaReadersInEpochDescendingOrder
-//@   requires held(ser.mu) == 0 && validEpochSet(ser)
+//@   # (the light half of validEpochSet, spelled out: the full predicate - every epoch a loaded epoch - makes the order invariants time out)
+//@   requires held(ser.mu) == 0 && ser.epochs != nil && (forall k uint64 :: has(ser.epochs, k) ==> ser.epochs[k] != nil)
 //@   ensures held(ser.mu) == 0
 //@   ensures len(result0) == len(result1)
 //@   noframe
@@ -262,7 +287,8 @@ package main
 //@   loop 1 invariant forall a, b int :: 0 <= a && a < b && b < len(epochNums) ==> epochNums[a] >= epochNums[b]
 
 //@ func (*MultiEpoch) getGsfaReadersInEpochDescendingOrderForSlotRange
-//@   requires held(ser.mu) == 0 && validEpochSet(ser)
+//@   # (the light half of validEpochSet, as above)
+//@   requires held(ser.mu) == 0 && ser.epochs != nil && (forall k uint64 :: has(ser.epochs, k) ==> ser.epochs[k] != nil)
 //@   ensures held(ser.mu) == 0
 //@   ensures len(result1) > 0 ==> result0 != nil
 //@   noframe
@@ -288,6 +314,10 @@ package main
 
 //@ func parseTransactionAndMetaFromNode
 //@   requires transactionNode != nil
+//@   # ASSUMED about solanatxmetaparsers.ParseAnyTransactionStatusMeta (other package, no contract; its three branches return
+//@   # `&status`): a successful parse never yields a typed nil pointer. nonNilMeta: contracts_verif_c08b.go
+//@   fncall solanatxmetaparsers.ParseAnyTransactionStatusMeta ensures result1 == nil ==> nonNilMeta(result0)
+//@   ensures nonNilMeta(meta)
 //@   # C14: the frame getter is a real function (tooling.LoadDataFromDataFrames calls it for every next link)
 //@   requires dataFrameGetter != nil
 //@   noframe
@@ -336,10 +366,19 @@ package main
 //@   noframe
 
 //@ func compiledInstructionsToJsonParsed
+//@   requires nonNilMeta(meta)
 //@   noframe
 
 //@ func encodeTransactionResponseBasedOnWantedEncoding
+//@   requires nonNilMeta(meta)
 //@   noframe
+//@   # address tables: loop 0 = lookups, 1/2 = maximum of the writable / readonly indexes, 3/4 = table fill
+//@   loop 1 invariant maxIndex >= 0 && maxIndex <= 255 && (forall k int :: 0 <= k && k < rangeidx1 ==> int(addr.WritableIndexes[k]) <= maxIndex)
+//@   loop 2 invariant maxIndex >= 0 && maxIndex <= 255 && (forall k int :: 0 <= k && k < len(addr.WritableIndexes) ==> int(addr.WritableIndexes[k]) <= maxIndex)
+//@   loop 2 invariant forall k int :: 0 <= k && k < rangeidx2 ==> int(addr.ReadonlyIndexes[k]) <= maxIndex
+//@   loop 3 invariant has(tables, tableKey) && (forall k int :: 0 <= k && k < len(addr.WritableIndexes) ==> int(addr.WritableIndexes[k]) < len(tables[tableKey]))
+//@   loop 3 invariant forall k int :: 0 <= k && k < len(addr.ReadonlyIndexes) ==> int(addr.ReadonlyIndexes[k]) < len(tables[tableKey])
+//@   loop 4 invariant has(tables, tableKey) && (forall k int :: 0 <= k && k < len(addr.ReadonlyIndexes) ==> int(addr.ReadonlyIndexes[k]) < len(tables[tableKey]))
 
 //@ func adaptTransactionMetaToExpectedOutput
 //@   requires m != nil
@@ -348,6 +387,7 @@ package main
 
 //@ func byteSliceAsIntegerSlice
 //@   noframe
+//@   loop 0 invariant 0 <= i
 
 //@ func NewJobGroup
 //@   ensures result != nil
